@@ -652,6 +652,36 @@ func main() {
 				}
 			}
 			rec("", 0)
+			// numeric boundaries: every value whose first nine digits are next to those of the largest
+			// parameter (2^31-1) with every last digit, the same with one more digit, and the neighbours of
+			// 2^8, 2^15, 2^16, 2^32, 2^63 and 2^64; bare, with leading zeros, in each position of a list and as
+			// a sub-parameter
+			var vals []string
+			for _, pre := range []int{214748363, 214748364, 214748365} {
+				for d := 0; d < 10; d++ {
+					vals = append(vals, fmt.Sprint(pre*10+d))
+					if d == 0 || d == 7 {
+						vals = append(vals, fmt.Sprint(pre*10+d)+"0", fmt.Sprint(pre*10+d)+"7")
+					}
+				}
+			}
+			vals = append(vals, "255", "256", "32767", "32768", "65535", "65536", "999999999", "1000000000", "4294967295", "4294967296", "4294967297",
+				"9223372036854775806", "9223372036854775807", "9223372036854775808", "18446744073709551615", "18446744073709551616", "18446744073709551617")
+			for _, v := range vals {
+				for _, z := range []string{"", "0", "000"} {
+					for _, form := range []string{"%s", "%s;1", "1;%s", "1;%s;2", "4:%s", "%s:3", "38:2:%s:1", ";%s", "%s;"} {
+						k++
+						if k%n != idx {
+							continue
+						}
+						ps := fmt.Sprintf(form, z+v)
+						checkInput(int(csiEntry), []byte("\x1b["+ps+"m"), "CSI "+ps+" m")
+						if !strings.Contains(ps, ":") {
+							checkInput(int(dcsEntry), []byte("\x1bP"+ps+"qd\x1b\\"), "DCS "+ps+" q")
+						}
+					}
+				}
+			}
 		}
 		r.WorkerDone()
 	}
@@ -660,7 +690,7 @@ func main() {
 	n := r.Get("parser_runs")
 	r.Finish(explore.Coverage{
 		States: -1, Transitions: n, Traces: n, Evaluations: n,
-		Rule:       "for each of the 16 parser states (entered by its shortest prefix): every suffix of <= n symbols over a 30-symbol alphabet with one or two representatives per byte class of the state table (C0, BEL, CAN, SUB, ESC, 0x20-2F, digits, ':', ';', 0x3C-3F, every state-changing final of the escape state, ordinary finals, DEL, 2/3/4-byte scalars, a combining mark, U+FFFD, an invalid byte) followed by a sentinel 'x', fed to the real ansi.Parser under every split into reads (all 2^(len-1) splits up to 6 bytes, every single split beyond); plus every CSI and DCS parameter string of <= 6 elements over {0, 7, a 19-digit number, ;, :}. Compared with an independent transcription of the vt100.net state table with the documented extensions; text runs are compared after merging Prints, each Print's width and (unsplit) cluster boundaries against uniseg. distinct = inputs that passed under all splits",
+		Rule:       "for each of the 16 parser states (entered by its shortest prefix): every suffix of <= n symbols over a 30-symbol alphabet with one or two representatives per byte class of the state table (C0, BEL, CAN, SUB, ESC, 0x20-2F, digits, ':', ';', 0x3C-3F, every state-changing final of the escape state, ordinary finals, DEL, 2/3/4-byte scalars, a combining mark, U+FFFD, an invalid byte) followed by a sentinel 'x', fed to the real ansi.Parser under every split into reads (all 2^(len-1) splits up to 6 bytes, every single split beyond); plus every CSI and DCS parameter string of <= 6 elements over {0, 7, a 19-digit number, ;, :} and 59 boundary values (all last digits next to 2^31-1, one digit more, neighbours of 2^8/2^15/2^16/2^32/2^63/2^64) bare and with leading zeros in 9 list / sub-parameter positions. Compared with an independent transcription of the vt100.net state table with the documented extensions; text runs are compared after merging Prints, each Print's width and (unsplit) cluster boundaries against uniseg. distinct = inputs that passed under all splits",
 		Exhaustive: true,
 		Bounds:     map[string]any{"suffix_len": maxLen, "alphabet": len(alphabet), "skipped_outside_alphabet": r.Get("outside_alphabet")},
 		Assumptions: []string{"the ST that ends a string is suppressed iff the string state consumed at least one character (pinned by the repository's TestOSC)",
